@@ -596,6 +596,43 @@ theorem C02_mirror_partial {s : Schema} {rank trank : String → Nat} (wf : WF s
     · exact Or.inl h
     · exact Or.inr (h td htd)
 
+/-- `TypeDescriptor::NonRefTypeDescriptor()` follows REFERENCE_TYPE links without an iteration bound (regenerated from
+    typeDescriptor.cc; with a bound — seeded change C02-d2: 8 links — this does not elaborate). -/
+theorem C02_nonref_loop_unbounded : nonRefLinkBound = none := rfl
+
+/-- The dictionary getter `NonRefTypeDescriptor()` (and with it `NonRefType()`, `IsAggrType()`, `AggrElemType…()`) follows a rename
+    chain of ANY length to the declaration that carries the body: for every well-formed schema, every defined type `n` and the
+    root `r` of its rename chain (`RootOf`, no bound on the number of `TYPE a = b;` links), the getter applied to the registered
+    dictionary answers `r`'s descriptor. -/
+theorem C02_nonref_follows_chain {s : Schema} {trank : String → Nat} (wft : WFT s trank) (roots : List String)
+    {n : String} {r : TypeDecl} (h : RootOf s n r) (hent : ∀ e, r.body ≠ .alias (.entity e)) :
+    nonRefOf (dictOf s roots).types (.named n) = .named r.name := by
+  unfold nonRefOf nonRefFuel
+  rw [C02_nonref_loop_unbounded]
+  show nonRefTD (s.types.map (typeOf s)) ((s.types.map (typeOf s)).length + 1) (.named n) = _
+  apply nonRefTD_chain wft h hent
+  -- the chain is shorter than the number of declarations
+  have hex : ∃ td, s.findT n = some td := by
+    cases h <;> exact ⟨_, by assumption⟩
+  obtain ⟨td, hT⟩ := hex
+  have htm : td ∈ s.types := by unfold Schema.findT at hT; exact List.mem_of_find?_eq_some hT
+  have htn : td.name = n := by
+    unfold Schema.findT at hT
+    have := List.find?_some hT
+    simpa using this
+  have := wft.bound td htm
+  rw [htn] at this
+  simp only [List.length_map]
+  omega
+
+/-- with an iteration bound of 8 (seeded change C02-d2) the getter stops on a reference descriptor for a chain of 10 renames -/
+theorem C02_nonref_bounded_witness :
+    let ts : List DType := (List.range 11).map (fun i =>
+      if i = 0 then ({ name := "m0", ft := .real, ref := .base .real } : DType)
+      else { name := s!"m{i}", ft := .ref, ref := .named s!"m{i-1}" })
+    nonRefTD ts 8 (.named "m10") = .named "m2" ∧ nonRefTD ts (ts.length + 1) (.named "m10") = .named "m0" := by
+  decide
+
 /-- Enumeration and select descriptors are created before any init function runs (regenerated from
     `TYPEPrint`/`TYPEPrint_cc`); does not elaborate on a tree where they are created in their own init function. -/
 theorem C02_descriptors_created_before_inits : descCreation = .beforeInits := rfl
